@@ -361,6 +361,10 @@ def do_check(prop, tier, seed, replay=None, quiet=False):
             key = f["signature"] if f else sig
             matched.setdefault(key, (f, 0))
             matched[key] = (f, matched[key][1] + v["count"])
+        for f in known:
+            # every listed open finding is reported, whether or not this run came across it
+            if f.get("status") == "open" and f["signature"] not in matched:
+                matched[f["signature"]] = (f, 0)
         for key, (f, cnt) in sorted(matched.items()):
             what = f["what"] if f else key
             print("KNOWN-FINDING: property=%s %s [signature %s, %d case(s) this run]" % (prop, what, key, cnt))
